@@ -1,6 +1,7 @@
 // BOUNDED STAND-IN (native executable contracts), appended to zkchannels-crypto/src/pointcheval_sanders.rs of a scratch copy.
 // Used when the Verus lane cannot decide a function of this file (construct outside the verifier's reach), and in the
-// thorough tier.  Inputs: an edge lattice ({0, 1, q-1, 2, random} per slot, zeros in every position) x N in {1,2,3,5}.
+// thorough tier.  Inputs: an edge lattice ({0, 1, 2, 5, q-1, q-2, q-255, 2^63-1, 2^63, 2^63+5, 2^64-1, 2^64, 2^128, two values with high bytes
+// set, random} per slot, zeros in every position) x N in {1,2,3,5}.
 #[cfg(test)]
 mod verif_standins {
     use super::*;
@@ -9,7 +10,14 @@ mod verif_standins {
     use rand::SeedableRng;
 
     fn rng() -> rand::rngs::StdRng { rand::rngs::StdRng::seed_from_u64(0x5eed) }
-    fn lattice(rng: &mut impl Rng) -> Vec<Scalar> { vec![Scalar::zero(), Scalar::one(), -Scalar::one(), Scalar::from(2), Scalar::random(rng)] }
+    fn lattice(rng: &mut impl Rng) -> Vec<Scalar> {
+        let two63 = Scalar::from(1u64 << 63);
+        vec![
+            Scalar::zero(), Scalar::one(), Scalar::from(2), Scalar::from(5), -Scalar::one(), -Scalar::from(2), -Scalar::from(255),
+            Scalar::from((1u64 << 63) - 1), two63, two63 + Scalar::from(5), Scalar::from(u64::MAX), Scalar::from(u64::MAX) + Scalar::one(),
+            Scalar::from_raw([0, 0, 1, 0]), Scalar::from_raw([1000, 0, 0, 0x2a << 56]), Scalar::from_raw([5, 0, 0, 3 << 56]), Scalar::random(rng),
+        ]
+    }
 
     /// reference: sigma1 != 1  and  e(sigma1, X~ + sum Y~_i m_i) == e(sigma2, g~)
     fn reference_verify<const N: usize>(pk: &PublicKey<N>, m: &[Scalar; N], s: &Signature) -> bool {
@@ -38,7 +46,8 @@ mod verif_standins {
             let msg = Message::new(*m);
             let sig = Signature::new(&mut rng, &kp, &msg);
             assert!(sig.verify(pk, &msg), "STANDIN ps.Signature::verify: honest signature rejected, N={} m={:?}", N, m);
-            for other in &msgs {
+            // every message that differs from the signed one in at most one slot (keeps the run time linear in the lattice)
+            for other in msgs.iter().filter(|o| (0..N).filter(|&i| o[i] != m[i]).count() <= 1) {
                 let got = sig.verify(pk, &Message::new(*other));
                 let want = reference_verify(pk, other, &sig);
                 assert_eq!(got, want, "STANDIN ps.Signature::verify: disagrees with the PS relation, N={} signed={:?} checked={:?}", N, m, other);
